@@ -152,6 +152,33 @@ func c16Fetch(c *Ctx) {
 	}
 	c.check("fetch.marker-before-unzip", f.Name, g.pos(keys(unzip)[0]), ok3, d3)
 
+	// 3b. nothing creates the extraction directory (or anything inside it)
+	// before the marker exists: downloadDir reads "directory present, marker
+	// absent" as "complete", so the directory must come second.
+	creators := g.callNodes("os.MkdirAll", "os.Mkdir", "os.OpenFile", "os.Create", "os.WriteFile", "internal/robustio.WriteFile", "os.Rename", "internal/robustio.Rename", "mod/modzip.Unzip")
+	var early []string
+	nCreators := 0
+	if len(marker) > 0 {
+		in := g.run(g.successAutomaton(marker))
+		for _, id := range keys(creators) {
+			call := creators[id]
+			for ai, a := range call.Args {
+				if ai > 1 {
+					break
+				}
+				sh := c.pathExact(f, a, 0)
+				if strings.HasPrefix(sh, "call:"+mc+"(*Cache).downloadDir") || strings.HasPrefix(sh, "Join(call:"+mc+"(*Cache).downloadDir") {
+					nCreators++
+					if in[id]&^(1<<stOK) != 0 {
+						early = append(early, fmt.Sprintf("%s(%s) at %s", calleeName(info, call), sh, c.pos(g.pos(id))))
+					}
+				}
+			}
+		}
+	}
+	c.check("fetch.dir-created-only-after-marker", f.Name, f.Body.Pos(), len(early) == 0 && nCreators > 0,
+		"every call that can create the extraction directory itself (or files in it) must come after the .partial marker was written successfully; offending: "+strings.Join(early, "; "))
+
 	// 4/5. marker life cycle automaton.
 	const (
 		mNone      = 0 // marker not yet written
@@ -496,6 +523,25 @@ func c16TempRename(c *Ctx, f *Fn, finalParam string, writers []string) {
 	})
 	c.check("temp-rename.final-path-not-written-in-place", f.Name, f.Body.Pos(), len(misuse) == 0,
 		"the final cache path may only be stat'ed/read and used as rename target; "+strings.Join(misuse, "; "))
+
+	// stale-temp cleanup must match exactly the temp files this function
+	// creates (same directory, same prefix): a wider pattern deletes the
+	// in-flight temp files of other versions, which hold a different lock.
+	tcall := temp[tempID]
+	for id, gl := range g.callNodes("path/filepath.Glob") {
+		okGlob := false
+		det := "glob pattern is not Join(dir, prefix+const)"
+		if len(gl.Args) == 1 && len(tcall.Args) >= 3 {
+			pat := c.pathExact(f, gl.Args[0], 0)
+			dirS := c.pathExact(f, tcall.Args[1], 0)
+			pre := c.pathExact(f, tcall.Args[2], 0)
+			want1 := "Join(call:" + mc + "quoteGlob(" + dirS + ")," + pre + "+"
+			want2 := "Join(" + dirS + "," + pre + "+"
+			okGlob = strings.HasPrefix(pat, want1) || strings.HasPrefix(pat, want2)
+			det = fmt.Sprintf("cleanup glob %s must be anchored at tempFile's directory %s and prefix %s", pat, dirS, pre)
+		}
+		c.check("temp-rename.cleanup-matches-own-temps", f.Name, g.pos(id), okGlob, det)
+	}
 
 	// re-check before any effect (downloadZip1 only: the caller of
 	// writeDiskCache re-checks in fetchModFileData).
